@@ -50,6 +50,10 @@ class Arena(object):
 
     def view(self, n, place, data=None, shift=0, canary=True):
         off = self.offset(n, place, shift)
+        for a, k in self._canaries:
+            if a < off + n and off < a + k:
+                raise GuardError("arena %s: a second window [%d,+%d) overlaps the canary of an earlier window of the "
+                                 "same case" % (self.name, off - PAGE, n))
         v = self.mv[off:off + n]
         if data is not None:
             v[:] = data
